@@ -270,6 +270,34 @@ pub fn run(_args: &[String]) {
             c.as_object_mut().unwrap().insert("org.example.unknown_field".into(), json!({"deep": [1, {"x": null}]}));
             variants.push(("unknown-field".into(), c));
         }
+        // an unknown field inside every nested object that is a structure (not a map keyed by ids)
+        fn nest_unknown(v: &mut Value, hits: &mut u32) {
+            const STRUCTS: &[&str] = &["info", "thumbnail_info", "m.relates_to", "m.in_reply_to", "m.new_content", "m.mentions", "predecessor",
+                                       "third_party_invite", "signed", "file", "m.poll", "question", "body", "unsigned"];
+            if let Value::Object(m) = v {
+                for (k, x) in m.iter_mut() {
+                    if STRUCTS.contains(&k.as_str()) {
+                        if let Value::Object(inner) = x {
+                            inner.insert("org.example.unknown_nested".into(), json!([{"x": 1}]));
+                            *hits += 1;
+                        }
+                    }
+                    nest_unknown(x, hits);
+                }
+            } else if let Value::Array(a) = v {
+                for x in a {
+                    nest_unknown(x, hits);
+                }
+            }
+        }
+        {
+            let mut c = full.clone();
+            let mut hits = 0;
+            nest_unknown(&mut c, &mut hits);
+            if hits > 0 {
+                variants.push(("unknown-nested".into(), c));
+            }
+        }
         let formats: &[&str] = match kind { "state" => &["sync", "full", "stripped"], "message_like" => &["sync", "full"], "ephemeral" => &["sync"], _ => &["plain"] };
         for (vname, content) in &variants {
             for format in formats {
